@@ -126,7 +126,7 @@ def do_case(case):
                 r = run.run(base + ['--assume', name, '-l', lang] + oa, stdin=src, cwd=d)
                 judge(mode, r.out, r, created, d, {name}, obs)
             elif mode == 'f_ext':
-                r = run.run(base + ['-f', name] + oa, cwd=d)
+                r = run.run(base + [rng.choice(['-f', '--file']), name] + oa, cwd=d)
                 judge(mode, r.out, r, created, d, {name}, obs)
             elif mode == 'f_o':
                 r = run.run(base + ['-l', lang, '-f', name, '-o', 'out.txt'] + oa, cwd=d)
@@ -149,7 +149,8 @@ def do_case(case):
                 judge(mode, got, r, created, d, {name, target}, obs)
             elif mode == 'F_list':
                 run.write(os.path.join(d, 'list.txt'), name + '\n')
-                r = run.run(base + ['-F', 'list.txt'] + oa, cwd=d)
+                # (the short and the long spelling of the option, seeded)
+                r = run.run(base + [rng.choice(['-F', '--files']), 'list.txt'] + oa, cwd=d)
                 t = name + '.uncrustify'
                 got = run.read(os.path.join(d, t)) if os.path.exists(os.path.join(d, t)) else b'<missing>'
                 judge(mode, got, r, created, d, {name, t, 'list.txt'}, obs)
